@@ -115,6 +115,7 @@ def c07(tier, rng, fam='C07'):
             if others:
                 b.step('send', c=5, pay='o2').step('recv', c=5).step('close', c=5).step('recv', c=5)
             out.append(b.q().done())
+    out += cancel_in_send_between_reads(fam)
     return out
 
 
@@ -1336,5 +1337,38 @@ def lost_reset(fam, nmax=4):
                 b.q()
                 b.step('sopen', c=98, kind='bidi', hp=[dict(o='echo')])
                 b.step('send', c=98, pay='x').step('recv', c=98).step('close', c=98).step('recv', c=98)
+                out.append(b.q().done())
+    return out
+
+
+def cancel_in_send_between_reads(fam):
+    """the caller's cancellation lands inside a Send that is held by the transport while the stream's read loop is
+    between two reads (cs.read.window): the Send fails with the context's error and lets go of the registration; when
+    the read loop carries on it finds both the registration gone and the context done - later receives still report
+    the context's status (not whatever the registry says), the reset is sent, the handler is told"""
+    out = []
+    for kind in ('bidi', 'ss'):
+        for how in ('cancel', 'deadline'):
+            for rep in range(6):                  # Go's select decides between two ready channels: several attempts
+                b = B(fam, '%s: %s inside a held Send while the read loop is between reads #%d' % (kind, how, rep), ser=bool(rep % 2))
+                hp = [dict(o='recv'), dict(o='send', pay='r0'), dict(o='ctxwait'), ret(code=1, msg='gone')]
+                b.step('sopen', c=1, kind=kind, hp=hp, **({'to': 5000} if how == 'deadline' else {}))
+                b.q()
+                b.step('arm', gate='cs.read.window', id=0, n=1)
+                b.step('send', c=1, pay='a')
+                b.step('recv', c=1)                # the read loop has handed r0 over and is parked before its next read
+                b.step('stuck', dir='c2s', on=True)
+                b.step('send', c=1, pay='b', nw=True)
+                b.step('wait')
+                if how == 'cancel':
+                    b.step('cancel', c=1)
+                else:
+                    b.step('adv', ms=5001)
+                b.step('stuck', dir='c2s', on=False)
+                b.step('rel', gate='cs.read.window')
+                b.step('recv', c=1)
+                b.step('send', c=1, pay='late')
+                b.q()
+                b.step('ucall', c=2, pay='probe', hp=[ret(pay='fine')])
                 out.append(b.q().done())
     return out
